@@ -42,8 +42,13 @@ func (ir *inputReader) getContents(offset *int64, line *int) string {
 	for offset != nil && *offset > bufSize*3/4 {
 		n, err := io.Copy(&buf,
 			io.LimitReader(ir.rs, min(bufSize, *offset-bufSize/4)))
+		if n > 0 && buf.Bytes()[n-1] == '\r' { // may be followed by '\n'
+			if _, err := ir.rs.Seek(-1, io.SeekCurrent); err == nil {
+				n--
+			}
+		}
 		*offset -= n
-		*line += bytes.Count(buf.Bytes(), []byte{'\n'})
+		*line += countNewlines(buf.Bytes()[:n])
 		buf.Reset()
 		if err != nil || n == 0 {
 			break
@@ -57,6 +62,12 @@ func (ir *inputReader) getContents(offset *int64, line *int) string {
 	}
 	_, _ = io.Copy(&buf, r)
 	return buf.String()
+}
+
+// Count newlines (LF, CR, or CRLF) in the bytes, which should not end with CR.
+func countNewlines(bs []byte) int {
+	return bytes.Count(bs, []byte{'\n'}) + bytes.Count(bs, []byte{'\r'}) -
+		bytes.Count(bs, []byte{'\r', '\n'})
 }
 
 type inputIter interface {
